@@ -265,7 +265,7 @@ fn sanitize(s: &str) -> String {
 /// Minimise, write the replay file (and the unminimised original next to it), return its path.
 pub fn report(prop: &str, sig: &str, first: &J) -> String {
     let desc = first.get("desc").and_then(RunDesc::from_json);
-    let base = format!("/verif/replays/{}-{}-{}", prop, sanitize(sig), first.getu("seed") & 0xFFFF_FFFF);
+    let base = format!("{}/replays/{}-{}-{}", crate::check::home(), prop, sanitize(sig), first.getu("seed") & 0xFFFF_FFFF);
     let path = format!("{}.json", base);
     let Some(desc) = desc else {
         let _ = std::fs::write(&path, first.pretty());
